@@ -1,25 +1,25 @@
 (* C13: what the code does in the degenerate corners that the theorems over R exclude by hypothesis, shown on the binary64
    instance of the model (the same Gallina terms that are compared bit for bit with the library). *)
 From Coq Require Import List ZArith Bool PrimFloat.
-From RV Require Import Common.Num Common.FloatNum C13.Model C13.Run.
+From RV Require Import Common.Num Common.FloatNum C13.Model C13.LoopNA C13.Run C13.Fixup.
 Import ListNotations.
 Open Scope float_scope.
 
 Definition tp (x vx : float) (h : Z) : fp := mkF x 0 0 vx 0 0 0 0x1.999999999999ap-4 0 h.      (* massless, r = 0.1 *)
 
-(* hypothesis m_a + m_b <> 0 of C13_merge_conserves: two massless (test) particles give 0 * (1/0): the survivor's
-   coordinates are NaN although both inputs are finite *)
-Lemma merge_massless_nan :
+(* m_a + m_b = 0 with two massless (test) particles (outside the hypothesis m_a + m_b <> 0 of C13_merge_conserves, covered by
+   C13_merge_conserves_massless over R): the survivor sits at the midpoint with the mean velocity, everything finite *)
+Lemma merge_massless_midpoint :
   let '(ps', o) := merge FNum 1 0x1.999999999999ap-4 [tp 5 0x1.999999999999ap-4 1000; tp 0x1.499999999999ap+2 (-0x1.999999999999ap-4) 1001] 0%Z 1%Z in
-  o = 2%Z /\ forallb (fun p : fp => is_nan (px p) && is_nan (pvx p)) (firstn 1 ps') = true.
+  o = 2%Z /\ map (fun p : fp => (px p, pvx p, pm p)) (firstn 1 ps') = [(0x1.44ccccccccccdp+2, 0, 0)].
 Proof. vm_compute. split; reflexivity. Qed.
 
-(* hypothesis m_1 + m_2 <> 0 of the hard-sphere theorems: p1pf = p2pf = 0/0, both velocities become NaN *)
-Lemma hardsphere_massless_nan :
+(* m_1 + m_2 = 0 in a hard-sphere bounce: both get half of the velocity change; here (restitution 1) the velocities are exchanged *)
+Lemma hardsphere_massless_exchange :
   match hardsphere FNum 1 1 0 0 1 0 (-1) (mkV6 0 0 0 0 0 0) (tp 5 0x1.999999999999ap-4 1000) (tp 0x1.499999999999ap+2 (-0x1.999999999999ap-4) 1001) with
-  | Some (q1, q2) => is_nan (pvx q1) && is_nan (pvx q2)
-  | None => false
-  end = true.
+  | Some (q1, q2) => (pvx q1, pvx q2)
+  | None => (nan, nan)
+  end = (-0x1.999999999999ap-4, 0x1.999999999999ap-4).
 Proof. vm_compute. reflexivity. Qed.
 
 (* a particle with a NaN coordinate passes the DIRECT pair test against every partner it is compared with here: the test is
@@ -41,5 +41,14 @@ Lemma search_empty :
   search_direct FNum (gb_periodic FNum 1 1 1) 1 1 1 [] = [] /\
   search_direct FNum (gb_periodic FNum 1 1 1) 1 1 1 [tp 0 0 1%Z] = [] /\
   search_line FNum (gb_periodic FNum 1 1 1) 1 1 1 1 [tp 0 0 1%Z] = [] /\
-  loop_ids false false (-1) [] [] [] = ([], [], (-1)%Z).
+  loop_ids false false false (-1) [] [] [] = ([], [], (-1)%Z).
 Proof. vm_compute. repeat split; reflexivity. Qed.
+
+(* the loop with and without the forcing of its local keep_sorted variable for a hybrid integrator (removal is sorted either way) *)
+Lemma hybrid_renumbering :
+  let ids := [1000; 1001; 1002; 1003; 1004]%Z in
+  let pend := [(1, 0, 13); (2, 3, 13)]%Z in
+  let run k := let '(_, _, _, log) := resolve_loop_k (fun p : idp => fst p) (fun p : idp => (fst p, true)) res_outs false true k
+                                        (fun e => e) (-1)%Z [1; 2]%Z (map (fun i => (i, false)) ids) pend in map ev_id log in
+  run true = [(1001, 1000, 13, 1); (1002, 1003, 13, 2)]%Z /\ run false = [(1001, 1000, 13, 1); (1003, 1004, 13, 2)]%Z.
+Proof. vm_compute. split; reflexivity. Qed.
